@@ -11,6 +11,7 @@ import (
 	"os"
 	"path/filepath"
 	"regexp"
+	"runtime/pprof"
 	"sort"
 	"strings"
 	"sync"
@@ -45,7 +46,7 @@ func main() {
 	verif := flag.String("verif", "/verif", "verification root")
 	only := flag.String("only", "", "regexp selecting harness names")
 	workers := flag.Int("workers", 16, "worker goroutines / solver processes")
-	solver := flag.String("solver", "z3", "feasibility solver")
+	solver := flag.String("solver", "z3-new", "feasibility solver")
 	qtimeout := flag.Int("qtimeout", 10000, "per-query timeout (ms)")
 	noReplay := flag.Bool("noreplay", false, "skip native replays")
 	maxPaths := flag.Int64("maxpaths", 0, "override path budget per harness")
@@ -53,6 +54,7 @@ func main() {
 	trace := flag.String("trace", "", "write worker 0 solver traffic to file")
 	flag.BoolVar(&debugEngine, "debug", false, "let engine errors crash with a stack")
 	flag.BoolVar(&oneShot, "oneshot", false, "fresh solver context per query (reset) instead of push/pop")
+	cpuprof := flag.String("cpuprofile", "", "write CPU profile")
 	flag.Parse()
 	args := flag.Args()
 	// allow flags after the positional arguments: gosym check C09 quick -only X
@@ -86,9 +88,18 @@ func main() {
 		traceSolver = f
 		defer f.Close()
 	}
+	if *cpuprof != "" {
+		f, _ := os.Create(*cpuprof)
+		pprof.StartCPUProfile(f)
+		defer pprof.StopCPUProfile()
+	}
 	c := &checker{repo: *repo, verif: *verif, prop: prop, tier: tier, seed: seed, workers: *workers, solver: *solver,
 		qtimeout: *qtimeout, only: *only, noReplay: *noReplay, maxPaths: *maxPaths, budget: *budget}
-	os.Exit(c.run())
+	rc := c.run()
+	if *cpuprof != "" {
+		pprof.StopCPUProfile()
+	}
+	os.Exit(rc)
 }
 
 type checker struct {
@@ -369,6 +380,7 @@ func (c *checker) run() int {
 	for _, hr := range results {
 		tot += hr.paths
 	}
+	fmt.Fprintf(os.Stderr, "[gosym] solver round-trip %.1fs, send %.1fs\n", float64(atomic.LoadInt64(&statRoundTripNs))/1e9, float64(atomic.LoadInt64(&statSendNs))/1e9)
 	fmt.Printf("RESULT property=%s tier=%s harnesses=%d paths=%d queries=%d solver_s=%.1f wall_s=%.1f status=%d\n", c.prop, c.tier, len(results), tot,
 		atomic.LoadInt64(&statQueries), float64(atomic.LoadInt64(&statSolverNs))/1e9, time.Since(c.t0).Seconds(), status)
 	return status
